@@ -63,7 +63,7 @@ prop("C05", "other", "static comparison-table extraction (which access paths are
      "Decides that the gate is complete: diff_schema compares every wire-relevant fact of each schema variant with a difference-reporting "
      "result, recurses into every nested schema, reports mismatched variants, and never lets names or memory-layout annotations influence "
      "the result; the header/schema section is read in the order it is written.",
-     "Rules Q1 (37 table obligations from the property statement, including: no accepting shortcut on a one-sided condition, and no "
+     "Rules W5/H1/W7d on the corpus (the schema describes the derived writer and reader), Q1 (38 table obligations from the property statement, including: no accepting shortcut on a one-sided condition, and no "
      "accepting shortcut that skips a comparison its condition does not cover), W4 (header sequence), F1 (in load_impl every path to the "
      "payload passes the whole-value comparison with the 9-byte magic that save_impl writes, the library-version bound, the data-version "
      "bound, and - when a schema is expected - diff_schema with a propagated difference).",
@@ -78,7 +78,8 @@ prop("C06", "other", "static interval/taint analysis of values read from the str
      "Rules T1 (interval analysis per reader function), T2, T3 (spec/panic_sites.json), T4 (capacity guards inclusive), T5 (BitVec: accepted "
      "bit count ≤ allocated storage bits, finite-domain evaluation), T6 (initialisation typestate of element-wise filled "
      "[MaybeUninit<T>; N] buffers, including error clean-up inside the fill loop and counted drop guards), I3, I8 (no Err swallowed by flat_map/"
-     "flatten/filter_map), P5.",
+     "flatten/filter_map), T7 (units of raw pointer arithmetic), T8 (single owner of raw allocations), T9 (lower-bound guard before "
+     "stream value minus constant), P5.",
      ["trusted lengths/offsets are ≤ isize::MAX and element sizes < 2^31", "panics inside third-party crates, stack exhaustion and OOM are not decided"],
      "absence of the enumerated defect classes on all paths, not absence of all panics", "DESIGN.md §3 C06, Appendix C")
 
@@ -138,7 +139,7 @@ prop("C14", "other", "static necessary conditions in savefile's AEAD wrapper (re
      "occupies its own slot of the 12-byte nonce (K5, constant folding of the array construction); the nonce header written is the one "
      "read (W4); every copy-out of the decrypt buffer advances the offset by what it returns (K4); the load demands the end of the "
      "compressed stream so that no trailing chunk is optional (K7). The cryptographic guarantee itself is ring's.",
-     "Rules I3 (crypto module), K3, K4, K5, K7, K8 (a record is written only while unwritten plaintext remains: no optional records), K9 (the "
+     "Rules I3 (crypto module), K3, K4, K5, K7, K8 (a record is written only while unwritten plaintext remains: no optional records), K10 (every header value read is stored in the nonce state), T9, K9 (the "
      "unauthenticated chunk length is used as read and rejected when out of range, never clamped), T3 (panic-site inventory incl. slice range "
      "indexing on the load path), W4.",
      ["that modification of nonce/length/ciphertext/tag is detected is ring's AES-256-GCM and is not decided here"],
@@ -158,7 +159,7 @@ prop("C16", "other", "static lock-order / held-lock effect analysis over the res
      "Deadlock-freedom necessary conditions: all shared mutable state is a Mutex or atomic (L3); the lock-order graph over the three "
      "process-wide caches is acyclic without self edges (L1); while a cache guard is live only negotiation messages leave the image, "
      "their callbacks and in-image handlers acquire no cache lock, and no RegularCall is issued under a lock (L2).",
-     "Rules L1, L2, L3, L4 (condition variables, if any: state changed under the waited-on mutex is followed by a notify - no lost "
+     "Rules L1, L2, L3, L5 (no check-then-act across two critical sections), L4 (condition variables, if any: state changed under the waited-on mutex is followed by a notify - no lost "
      "wake-up), X2 (AbiConnection<T> is Send/Sync only if T is).",
      ["'same results as sequential execution' (linearizability) is not decided", "user constructors run under CreateInstance execute in the plugin image with its own statics"],
      "necessary conditions for deadlock freedom", "DESIGN.md §3 C16")
@@ -201,7 +202,7 @@ prop("C10", "translation_validation", "value-origin analysis of the version labe
      "it was called with; the caller decodes the reply with the reply header's version (N3). Negotiation takes min(own, callee) (N1); a "
      "method missing in the implementation panics at call time, after a successful match of its number (N4); signature changes are "
      "rejected by the definition comparison (Q4); trampolines agree at every mask assignment (W9).",
-     "Rules N3 (every corpus trait and method), N1, N4, N5, N6, N7 (which definition is handed to analyze_and_create in which position, with branch conditions), M7, Q3, W9, Q4, M1/M2/M4 (which definitions are compared during negotiation), and "
+     "Rules N3 (every corpus trait and method), N1, N4, N5, N6, N7 (which definition is handed to analyze_and_create in which position, with branch conditions), M7, M8 (nested interfaces verified on the effective definitions), N8, X4, Q3, W9, Q4, M1/M2/M4 (which definitions are compared during negotiation), and "
      "H2/W5/P2 on the evolution histories (an argument type written at the effective version has that version's layout).",
      ["values are not decided; interface families are the enumerated ones"],
      "origin of version values in generated code", "DESIGN.md §3 C10")
